@@ -340,6 +340,7 @@ def execute(scn, ctx):
     states = set()
     n_samples = 0
     n_draws = n_forced = 0
+    held = []  # earlier samples: drawing more samples or querying the source must not change them
 
     def probe(name, k=1):
         probes[name] = probes.get(name, 0) + k
@@ -405,6 +406,11 @@ def execute(scn, ctx):
         h = hashlib.sha1()
         fired_kinds = set()
         outcome = "ok"
+        for hs in list(held):
+            if M.fingerprint(hs[1]) != hs[2]:
+                viol.append({"invariant": "C11.sample_stable", "tags": tags,
+                             "detail": f"a sample returned at op {hs[0]} was changed by later calls (before op {step})"})
+                held.remove(hs)
         for rep in range(int(op.get("repeat", 1))):
             plan = [f for f in op.get("faults", []) if f.get("rep", "*") in ("*", rep)]
             seam.begin_op(plan)
@@ -447,6 +453,15 @@ def execute(scn, ctx):
                     x["detail"] += f" (op {step}, rep {rep})"
             if isinstance(s, lib().Scores):
                 h.update(json.dumps(M.fingerprint(s), default=str).encode())
+                if eff != "callable":
+                    for hs in list(held):
+                        if M.fingerprint(hs[1]) != hs[2]:
+                            viol.append({"invariant": "C11.sample_stable", "tags": tags,
+                                         "detail": f"a sample returned at op {hs[0]} was changed when a later sample was drawn (op {step}, rep {rep})"})
+                            held.remove(hs)
+                    held.append((step, s, M.fingerprint(s)))
+                    if len(held) > 3:
+                        held.pop(0)
         cfp = M.fingerprint(list(callers[op["obj"]].values()))
         if cfp != caller_fp[op["obj"]]:
             viol.append({"invariant": "C11.source_unchanged", "detail": "caller-supplied score arrays were modified", "tags": tags})
